@@ -1,1 +1,613 @@
-(* placeholder: to be written *)
+(** Executable model of the energy bookkeeping of the locked-asset subsystem (property C08).
+
+    Mirrors, function by function and guard by guard:
+      locked-asset/energy-factory/src/energy.rs               (Energy: add, subtract, deplete, raw add/remove,
+                                                               add_after_token_lock, refund_after_token_unlock,
+                                                               deplete_after_early_unlock, update_after_unlock_any,
+                                                               update_after_unlock_epoch_change, views)
+      locked-asset/energy-factory/src/lib.rs                  (lockTokens, unlockTokens, extendLockPeriod)
+      locked-asset/energy-factory/src/extend_lock.rs          (lock_by_token_type, lock_base_asset, extend_new_token_period)
+      locked-asset/energy-factory/src/token_merging.rs        (mergeTokens, weighted average, month normalisation)
+      locked-asset/energy-factory/src/unlock_with_penalty.rs  (unlockEarly, reduceLockPeriod, reduce_lock_period_common)
+      locked-asset/energy-factory/src/penalty.rs, lock_options.rs (percentages, start-of-month rounding)
+      locked-asset/energy-factory/src/virtual_lock.rs         (lockVirtual)
+      locked-asset/energy-factory/src/locked_token_transfer.rs, unstake.rs (setUserEnergyAfterLockedTokenTransfer, revertUnstake)
+      locked-asset/simple-lock/src/basic_lock_unlock.rs       (lock_tokens, unlock_tokens)
+      locked-asset/token-unstake/src/{fees_handler,unbond_tokens,cancel_unstake}.rs
+      locked-asset/lkmex-transfer/src/{lib,energy_transfer}.rs
+      locked-asset/locked-token-wrapper/src/lib.rs
+
+    Conventions.
+    * Every locked token created by the factory has attributes (base asset, 0, unlock_epoch) and
+      [get_or_create_nonce_for_attributes] keeps one nonce per attribute value, so a locked token
+      "kind" is identified here by its unlock epoch; the harness translates nonces to unlock epochs
+      through the real token attributes.
+    * The ledger is the list of signed balance changes; the balance of (holder, unlock epoch) is the
+      sum of its entries.  A debit is guarded like an ESDT transfer / burn (aborts when insufficient).
+    * Accounts: ids > 0 are user accounts (externally owned); the contract accounts that hold locked
+      tokens in escrow are H_UNSTAKE (token-unstake), H_XFER (lkmex-transfer), H_WRAP (wrapper).
+      Penalty fees are burned (token-unstake burns its share, the fees collector burns the rest).
+    * The whitelisted contract of [extendLockPeriod] / [lockVirtual] / [mergeTokens(original_caller)]
+      is a pass-through that acts for the user and hands the result back in the same operation
+      (ExtendVia / LockVirtual / MergeVia).  Positions a proxy keeps for a user are not modelled.
+    No proofs in this file. *)
+From MX Require Import Base.Prelude Gen.Params.
+
+(** ------------------------------------------------------------------ energy.rs *)
+Record energy := mkEn { e_amt : Z; e_upd : Z; e_tot : Z }.
+
+Definition zero_energy : energy := mkEn 0 0 0.
+
+(** Energy::add *)
+Definition en_add (en : energy) (future current per_epoch : Z) : energy :=
+  if future <=? current then en
+  else mkEn (e_amt en + per_epoch * (future - current)) (e_upd en) (e_tot en).
+
+(** Energy::subtract *)
+Definition en_subtract (en : energy) (past current per_epoch : Z) : energy :=
+  if current <=? past then en
+  else mkEn (e_amt en - per_epoch * (current - past)) (e_upd en) (e_tot en).
+
+Definition deplete (en : energy) (now : Z) : energy :=
+  if e_upd en =? now then en
+  else
+    let en1 := if 0 <? e_tot en then en_subtract en (e_upd en) now (e_tot en) else en in
+    mkEn (e_amt en1) now (e_tot en1).
+
+Definition add_energy_raw (en : energy) (tok amt : Z) : energy :=
+  mkEn (e_amt en + amt) (e_upd en) (e_tot en + tok).
+
+Definition remove_energy_raw (en : energy) (tok amt : Z) : result energy :=
+  do t <- sub_chk (e_tot en) tok;
+  Ok (mkEn (e_amt en - amt) (e_upd en) t).
+
+Definition add_after_token_lock (en : energy) (amt unlock now : Z) : energy :=
+  let en1 := en_add en unlock now amt in
+  mkEn (e_amt en1) (e_upd en1) (e_tot en1 + amt).
+
+Definition refund_after_token_unlock (en : energy) (amt unlock now : Z) : result energy :=
+  let en1 := en_add en now unlock amt in
+  do t <- sub_chk (e_tot en1) amt;
+  Ok (mkEn (e_amt en1) (e_upd en1) t).
+
+Definition deplete_after_early_unlock (en : energy) (amt unlock now : Z) : result energy :=
+  let en1 := en_subtract en now unlock amt in
+  do t <- sub_chk (e_tot en1) amt;
+  Ok (mkEn (e_amt en1) (e_upd en1) t).
+
+Definition update_after_unlock_any (en : energy) (amt unlock now : Z) : result energy :=
+  if unlock <? now then refund_after_token_unlock en amt unlock now
+  else deplete_after_early_unlock en amt unlock now.
+
+Definition update_after_unlock_epoch_change (en : energy) (amt old_unlock new_unlock now : Z) : result energy :=
+  do en1 <- update_after_unlock_any en amt old_unlock now;
+  Ok (add_after_token_lock en1 amt new_unlock now).
+
+Definition get_energy_amount (en : energy) : Z := if 0 <? e_amt en then e_amt en else 0.
+
+(** ------------------------------------------------------------------ ledger *)
+Definition ledger := list (Z * Z * Z).          (* ((holder, unlock epoch), signed change) *)
+
+Fixpoint lget (l : ledger) (h e : Z) : Z :=
+  match l with
+  | [] => 0
+  | (h', e', a) :: t => (if (h' =? h) && (e' =? e) then a else 0) + lget t h e
+  end.
+
+Definition credit (l : ledger) (h e a : Z) : ledger := (h, e, a) :: l.
+
+Definition debit (l : ledger) (h e a : Z) : result ledger :=
+  do _ <- sub_chk (lget l h e) a;
+  Ok ((h, e, - a) :: l).
+
+Fixpoint credit_all (l : ledger) (h : Z) (ps : list (Z * Z)) : ledger :=
+  match ps with
+  | [] => l
+  | (e, a) :: t => credit_all (credit l h e a) h t
+  end.
+
+Fixpoint debit_all (l : ledger) (h : Z) (ps : list (Z * Z)) : result ledger :=
+  match ps with
+  | [] => Ok l
+  | (e, a) :: t => do l1 <- debit l h e a; debit_all l1 h t
+  end.
+
+(** sum of amount * unlock_epoch, and of amount, over the tokens held by [h] *)
+Fixpoint lweight (l : ledger) (h : Z) : Z :=
+  match l with
+  | [] => 0
+  | (h', e, a) :: t => (if h' =? h then a * e else 0) + lweight t h
+  end.
+
+Fixpoint ltotal (l : ledger) (h : Z) : Z :=
+  match l with
+  | [] => 0
+  | (h', _, a) :: t => (if h' =? h then a else 0) + ltotal t h
+  end.
+
+Definition H_UNSTAKE : Z := 0.
+Definition H_XFER : Z := -1.
+Definition H_WRAP : Z := -2.
+Definition ADMIN : Z := 100.                 (* the account holding lkmex-transfer admin permissions *)
+Definition is_user (a : Z) : bool := 0 <? a.
+
+(** ------------------------------------------------------------------ state *)
+Record unbond := mkUb { ub_at : Z; ub_e : Z; ub_locked : Z; ub_unlocked : Z }.
+Record xfer := mkXf { xf_recv : Z; xf_send : Z; xf_funds : list (Z * Z); xf_at : Z }.
+
+Record cfg := mkCfg {
+  c_opts : list (Z * Z);        (* lock options (lock_epochs, penalty_start_percentage), sorted by epochs *)
+  c_unbond : Z;                 (* token-unstake unbond_epochs *)
+  c_minlock : Z;                (* lkmex-transfer min_lock_epochs *)
+  c_cool : Z                    (* lkmex-transfer epochs_cooldown_duration *)
+}.
+
+Record st := mkSt {
+  s_cfg : cfg;
+  s_now : Z;                            (* block epoch *)
+  s_en : list (Z * energy);             (* userEnergy *)
+  s_bal : ledger;                       (* locked-token balances *)
+  s_unb : list (Z * unbond);            (* unlockedTokensForUser, all users, in push order *)
+  s_xf : list xfer;                     (* lockedFunds *)
+  s_slast : list (Z * Z);               (* senderLastTransferEpoch  (0 = empty, as in storage) *)
+  s_rlast : list (Z * Z);               (* receiverLastTransferEpoch *)
+  s_wbal : ledger                       (* wrapped-token balances, keyed by the unlock epoch of the wrapped nonce *)
+}.
+
+Definition set_now (s : st) (n : Z) : st :=
+  mkSt (s_cfg s) n (s_en s) (s_bal s) (s_unb s) (s_xf s) (s_slast s) (s_rlast s) (s_wbal s).
+Definition set_en (s : st) (x : list (Z * energy)) : st :=
+  mkSt (s_cfg s) (s_now s) x (s_bal s) (s_unb s) (s_xf s) (s_slast s) (s_rlast s) (s_wbal s).
+Definition set_bal (s : st) (x : ledger) : st :=
+  mkSt (s_cfg s) (s_now s) (s_en s) x (s_unb s) (s_xf s) (s_slast s) (s_rlast s) (s_wbal s).
+Definition set_unb (s : st) (x : list (Z * unbond)) : st :=
+  mkSt (s_cfg s) (s_now s) (s_en s) (s_bal s) x (s_xf s) (s_slast s) (s_rlast s) (s_wbal s).
+Definition set_xf (s : st) (x : list xfer) : st :=
+  mkSt (s_cfg s) (s_now s) (s_en s) (s_bal s) (s_unb s) x (s_slast s) (s_rlast s) (s_wbal s).
+Definition set_slast (s : st) (x : list (Z * Z)) : st :=
+  mkSt (s_cfg s) (s_now s) (s_en s) (s_bal s) (s_unb s) (s_xf s) x (s_rlast s) (s_wbal s).
+Definition set_rlast (s : st) (x : list (Z * Z)) : st :=
+  mkSt (s_cfg s) (s_now s) (s_en s) (s_bal s) (s_unb s) (s_xf s) (s_slast s) x (s_wbal s).
+Definition set_wbal (s : st) (x : ledger) : st :=
+  mkSt (s_cfg s) (s_now s) (s_en s) (s_bal s) (s_unb s) (s_xf s) (s_slast s) (s_rlast s) x.
+
+Definition init_state (c : cfg) (epoch : Z) : st := mkSt c epoch [] [] [] [] [] [] [].
+
+Fixpoint eget (l : list (Z * energy)) (u : Z) : energy :=
+  match l with
+  | [] => zero_energy
+  | (k, v) :: t => if k =? u then v else eget t u
+  end.
+
+Definition eset (l : list (Z * energy)) (u : Z) (v : energy) : list (Z * energy) := (u, v) :: l.
+
+(** get_updated_energy_entry_for_user (also energy_query::get_energy_entry of the satellite contracts):
+    an absent entry reads as new_zero_energy(now), which is what depleting the all-zero entry gives *)
+Definition entry_now (s : st) (u : Z) : energy := deplete (eget (s_en s) u) (s_now s).
+
+Definition put_entry (s : st) (u : Z) (en : energy) : st := set_en s (eset (s_en s) u en).
+
+(** ------------------------------------------------------------------ lock_options.rs *)
+Definition opts_of (s : st) : list (Z * Z) := c_opts (s_cfg s).
+
+Definition listed (opts : list (Z * Z)) (le : Z) : bool := existsb (fun o => fst o =? le) opts.
+
+Definition som (x : Z) : Z := x - x mod EPOCHS_PER_MONTH.      (* unlock_epoch_to_start_of_month *)
+
+Definition last_lock (opts : list (Z * Z)) : Z := fst (last opts (0, 0)).
+
+Definition som_upper (opts : list (Z * Z)) (now x : Z) : Z :=  (* ..._upper_estimate *)
+  let lower := som x in
+  if x =? lower then lower else
+  let nw := lower + EPOCHS_PER_MONTH in
+  if nw <=? now then nw else
+  if (nw - now) <=? last_lock opts then nw else lower.
+
+(** what addLockOptions accepts (after its own sort): 1..MAX options, epochs >= one year and strictly
+    increasing, percentages <= 100% and strictly increasing *)
+Fixpoint opts_sorted (l : list (Z * Z)) : bool :=
+  match l with
+  | a :: ((b :: _) as t) => (fst a <? fst b) && (snd a <? snd b) && opts_sorted t
+  | _ => true
+  end.
+
+Definition valid_opts (l : list (Z * Z)) : bool :=
+  negb (match l with [] => true | _ => false end)
+  && (Z.of_nat (length l) <=? MAX_LOCK_OPTIONS)
+  && forallb (fun o => (EPOCHS_PER_YEAR <=? fst o) && (0 <=? snd o) && (snd o <=? MAX_PENALTY_PERCENTAGE)) l
+  && opts_sorted l.
+
+(** ------------------------------------------------------------------ penalty.rs / math *)
+Definition lin_interp (min_in max_in cur min_out max_out : Z) : result Z :=
+  check negb ((cur <? min_in) || (max_in <? cur)) else EGuard;
+  div_chk (min_out * (max_in - cur) + max_out * (cur - min_in)) (max_in - min_in).
+
+Fixpoint find_seg (l : list (Z * Z)) (x : Z) : option ((Z * Z) * (Z * Z)) :=
+  match l with
+  | a :: ((b :: _) as t) => if (fst a <=? x) && (x <=? fst b) then Some (a, b) else find_seg t x
+  | _ => None
+  end.
+
+Definition pct_full (opts : list (Z * Z)) (x : Z) : result Z :=
+  match opts with
+  | [] => Err EGuard
+  | first :: _ =>
+      check (x <=? last_lock opts) else EGuard;
+      let '(prev, next) :=
+        if (1 <? Z.of_nat (length opts)) && (fst first <? x) then
+          match find_seg opts x with Some pn => pn | None => ((0, 0), (0, 0)) end
+        else ((0, 0), first) in
+      lin_interp (fst prev) (fst next) x (snd prev) (snd next)
+  end.
+
+Definition pct_partial (opts : list (Z * Z)) (prev nw : Z) : result Z :=
+  do pf <- pct_full opts prev;
+  do pn <- pct_full opts nw;
+  do d <- sub_chk pf pn;
+  do den <- sub_chk MAX_PENALTY_PERCENTAGE pn;
+  div_chk (d * MAX_PENALTY_PERCENTAGE) den.
+
+Definition penalty_amount (opts : list (Z * Z)) (amt prev nw : Z) : result Z :=
+  check (0 <? prev) else EGuard;
+  check (nw <? prev) else EGuard;
+  do pct <- (if nw =? 0 then pct_full opts prev else pct_partial opts prev nw);
+  Ok (amt * pct / MAX_PENALTY_PERCENTAGE).
+
+(** weighted_average_round_up *)
+Definition avg_up (v1 w1 v2 w2 : Z) : result Z :=
+  div_chk (v1 * w1 + v2 * w2 + (w1 + w2) - 1) (w1 + w2).
+
+(** ------------------------------------------------------------------ simple-lock: lock_tokens *)
+(** mints [a] locked tokens of unlock epoch [e] to [h]; when the epoch is not in the future the
+    payment comes back unlocked (no locked token appears) *)
+Definition lock_tokens (l : ledger) (h e a now : Z) : ledger :=
+  if e <=? now then l else credit l h e a.
+
+Definition outs := list Z.
+
+(** ------------------------------------------------------------------ energy-factory endpoints *)
+(** lockTokens with the base asset (dest = caller unless the optional argument names another account);
+    lockVirtual is the same with a whitelisted contract as caller and dest = energy address = [dest] *)
+Definition ep_lock (s : st) (amt le dest : Z) : result (st * outs) :=
+  check listed (opts_of s) le else EGuard;
+  let now := s_now s in
+  let unlock := som (now + le) in
+  check (now <? unlock) else EGuard;
+  let en := entry_now s dest in
+  check (0 <? amt) else EGuard;                                     (* lock_tokens: "No payment" *)
+  let bal1 := lock_tokens (s_bal s) dest unlock amt now in
+  let en1 := add_after_token_lock en amt unlock now in
+  Ok (set_bal (put_entry s dest en1) bal1, [unlock; amt]).
+
+(** lockTokens with a locked token as payment (dest must be the caller) and extendLockPeriod
+    (energy of [u], tokens back through the whitelisted caller) *)
+Definition ep_extend (s : st) (u e amt le dest : Z) : result (st * outs) :=
+  check listed (opts_of s) le else EGuard;
+  let now := s_now s in
+  let unlock := som (now + le) in
+  check (now <? unlock) else EGuard;
+  do bal0 <- debit (s_bal s) u e amt;
+  let en := entry_now s dest in
+  check (dest =? u) else EGuard;
+  check (e <? unlock) else EGuard;
+  do en1 <- update_after_unlock_epoch_change en amt e unlock now;
+  check (0 <? amt) else EGuard;
+  let bal1 := lock_tokens bal0 u unlock amt now in
+  Ok (set_bal (put_entry s u en1) bal1, [unlock; amt]).
+
+(** unlockTokens *)
+Fixpoint unlock_loop (en : energy) (now : Z) (ps : list (Z * Z)) : result energy :=
+  match ps with
+  | [] => Ok en
+  | (e, a) :: t =>
+      check (e <=? now) else EGuard;
+      check (0 <? a) else EGuard;
+      do en1 <- refund_after_token_unlock en a e now;
+      unlock_loop en1 now t
+  end.
+
+Definition sum_amt (ps : list (Z * Z)) : Z := fold_right (fun p acc => snd p + acc) 0 ps.
+
+Definition ep_unlock (s : st) (c : Z) (ps : list (Z * Z)) : result (st * outs) :=
+  do bal1 <- debit_all (s_bal s) c ps;
+  check negb (match ps with [] => true | _ => false end) else EGuard;
+  let now := s_now s in
+  do en1 <- unlock_loop (entry_now s c) now ps;
+  Ok (set_bal (put_entry s c en1) bal1, [sum_amt ps]).
+
+(** mergeTokens: energy of [u]; the merged token goes to the caller, who is [u] or the pass-through *)
+Fixpoint merge_loop (en : energy) (now acc_e acc_a : Z) (ps : list (Z * Z)) : result (energy * Z * Z) :=
+  match ps with
+  | [] => Ok (en, acc_e, acc_a)
+  | (e, a) :: t =>
+      check (now <? e) else EGuard;
+      do en1 <- update_after_unlock_any en a e now;
+      do ne <- avg_up acc_e acc_a e a;
+      merge_loop en1 now ne (acc_a + a) t
+  end.
+
+Definition ep_merge (s : st) (u : Z) (ps : list (Z * Z)) : result (st * outs) :=
+  do bal1 <- debit_all (s_bal s) u ps;
+  check forallb (fun p => 0 <? snd p) ps else EGuard;        (* ESDT transfers carry positive amounts *)
+  let now := s_now s in
+  match ps with
+  | [] => Err EGuard
+  | (e0, a0) :: t =>
+      check (now <? e0) else EGuard;
+      do en1 <- update_after_unlock_any (entry_now s u) a0 e0 now;
+      do (en2, me, ma) <- merge_loop en1 now e0 a0 t;
+      check negb (match opts_of s with [] => true | _ => false end) else EGuard;
+      let ne := som_upper (opts_of s) now me in
+      let en3 := add_after_token_lock en2 ma ne now in
+      let bal2 := lock_tokens bal1 u ne ma now in
+      Ok (set_bal (put_entry s u en3) bal2, [ne; ma])
+  end.
+
+(** reduce_lock_period_common: returns (energy after removal, new lock epochs, amount remaining after penalty) *)
+Definition reduce_common (s : st) (c e amt : Z) (opt_le : option Z) : result (energy * Z * Z) :=
+  let now := s_now s in
+  check (now <? e) else EGuard;
+  do nle <- match opt_le with
+            | Some le =>
+                let tentative := now + le in
+                let diff := tentative - som tentative in
+                sub_chk le diff
+            | None => Ok 0
+            end;
+  let prev := e - now in
+  check (nle <? prev) else EGuard;
+  do en1 <- deplete_after_early_unlock (entry_now s c) amt e now;
+  do pen <- penalty_amount (opts_of s) amt prev nle;
+  check (0 <? amt) else EGuard;
+  check (pen <? amt) else EGuard;
+  Ok (en1, nle, amt - pen).
+
+(** unlockEarly: the locked tokens and the minted base tokens go to token-unstake *)
+Definition ep_unlock_early (s : st) (c e amt : Z) : result (st * outs) :=
+  do bal0 <- debit (s_bal s) c e amt;
+  do (en1, _, lft) <- reduce_common s c e amt None;
+  let bal1 := credit bal0 H_UNSTAKE e amt in
+  let ub := mkUb (s_now s + c_unbond (s_cfg s)) e amt lft in
+  Ok (set_unb (set_bal (put_entry s c en1) bal1) (s_unb s ++ [(c, ub)]), []).
+
+(** reduceLockPeriod: the penalty part keeps its nonce and is burned by token-unstake / the collector *)
+Definition ep_reduce (s : st) (c e amt le : Z) : result (st * outs) :=
+  check listed (opts_of s) le else EGuard;
+  do bal0 <- debit (s_bal s) c e amt;
+  do (en1, nle, lft) <- reduce_common s c e amt (Some le);
+  let now := s_now s in
+  let new_unlock := now + nle in
+  let bal1 := lock_tokens bal0 c new_unlock lft now in
+  let en2 := add_after_token_lock en1 lft new_unlock now in
+  Ok (set_bal (put_entry s c en2) bal1, [new_unlock; lft]).
+
+(** ------------------------------------------------------------------ token-unstake *)
+(** claimUnlockedTokens: from the front of the caller's queue while unbonded, at most MAX entries *)
+Fixpoint claim_scan (l : list (Z * unbond)) (u now : Z) (fuel : nat) (stopped : bool)
+  : list (Z * unbond) * list unbond :=
+  match l with
+  | [] => ([], [])
+  | (k, ub) :: t =>
+      if negb (k =? u) then
+        let '(kept, got) := claim_scan t u now fuel stopped in ((k, ub) :: kept, got)
+      else if stopped then
+        let '(kept, got) := claim_scan t u now fuel true in ((k, ub) :: kept, got)
+      else
+        match fuel with
+        | O => let '(kept, got) := claim_scan t u now O true in ((k, ub) :: kept, got)
+        | S f =>
+            if now <? ub_at ub then
+              let '(kept, got) := claim_scan t u now fuel true in ((k, ub) :: kept, got)
+            else
+              let '(kept, got) := claim_scan t u now f false in (kept, ub :: got)
+        end
+  end.
+
+Definition ep_claim (s : st) (c : Z) : result (st * outs) :=
+  let '(kept, got) := claim_scan (s_unb s) c (s_now s) (Z.to_nat MAX_CLAIM_UNLOCKED_TOKENS) false in
+  check negb (match got with [] => true | _ => false end) else EGuard;
+  do bal1 <- debit_all (s_bal s) H_UNSTAKE (map (fun ub => (ub_e ub, ub_locked ub)) got);
+  Ok (set_unb (set_bal s bal1) kept, map ub_unlocked got).
+
+(** cancelUnbond *)
+Fixpoint cancel_loop (en : energy) (now : Z) (l : list unbond) : result energy :=
+  match l with
+  | [] => Ok en
+  | ub :: t =>
+      do en1 <-
+        (if now <=? ub_e ub then Ok (add_after_token_lock en (ub_locked ub) (ub_e ub) now)
+         else
+           let en' := add_energy_raw en (ub_locked ub) 0 in
+           remove_energy_raw en' 0 (ub_locked ub * (now - ub_e ub)));
+      cancel_loop en1 now t
+  end.
+
+Definition queue_of (l : list (Z * unbond)) (u : Z) : list unbond :=
+  map snd (filter (fun p => fst p =? u) l).
+
+Definition ep_cancel_unbond (s : st) (c : Z) : result (st * outs) :=
+  let q := queue_of (s_unb s) c in
+  check negb (match q with [] => true | _ => false end) else EGuard;
+  let ps := map (fun ub => (ub_e ub, ub_locked ub)) q in
+  do en1 <- cancel_loop (entry_now s c) (s_now s) q;
+  do bal1 <- debit_all (s_bal s) H_UNSTAKE ps;
+  let bal2 := credit_all bal1 c ps in
+  Ok (set_unb (set_bal (put_entry s c en1) bal2) (filter (fun p => negb (fst p =? c)) (s_unb s)),
+      flat_map (fun p => [fst p; snd p]) ps).
+
+(** ------------------------------------------------------------------ lkmex-transfer / wrapper: energy_transfer.rs *)
+Fixpoint deduct_loop (en : energy) (now : Z) (ps : list (Z * Z)) : result energy :=
+  match ps with
+  | [] => Ok en
+  | (e, a) :: t =>
+      check (now <? e) else EGuard;
+      do en1 <- deplete_after_early_unlock en a e now;
+      deduct_loop en1 now t
+  end.
+
+Fixpoint add_dest_loop (en : energy) (now : Z) (ps : list (Z * Z)) : result energy :=
+  match ps with
+  | [] => Ok en
+  | (e, a) :: t =>
+      do en1 <-
+        (if now <? e then Ok (add_after_token_lock en a e now)
+         else
+           do en' <- remove_energy_raw en 0 (a * (now - e));
+           Ok (add_energy_raw en' a 0));
+      add_dest_loop en1 now t
+  end.
+
+Definition on_cooldown (s : st) (last : Z) : bool :=
+  if last =? 0 then false else negb (c_cool (s_cfg s) <? s_now s - last).
+
+Definition xf_match (r sd : Z) (x : xfer) : bool := (xf_recv x =? r) && (xf_send x =? sd).
+
+Definition find_xf (l : list xfer) (r sd : Z) : option xfer := find (xf_match r sd) l.
+
+Definition ep_lock_funds (s : st) (sender receiver : Z) (ps : list (Z * Z)) : result (st * outs) :=
+  do bal1 <- debit_all (s_bal s) sender ps;
+  check forallb (fun p => 0 <? snd p) ps else EGuard;
+  check (match find_xf (s_xf s) receiver sender with None => true | Some _ => false end) else EGuard;
+  check negb (on_cooldown s (aget (s_slast s) sender)) else EGuard;
+  let now := s_now s in
+  do en1 <- deduct_loop (entry_now s sender) now ps;
+  let bal2 := credit_all bal1 H_XFER ps in
+  let s1 := set_bal (put_entry s sender en1) bal2 in
+  Ok (set_slast (set_xf s1 (s_xf s ++ [mkXf receiver sender ps now])) (aset (s_slast s) sender now), []).
+
+Definition ep_withdraw (s : st) (receiver sender : Z) : result (st * outs) :=
+  check negb (on_cooldown s (aget (s_rlast s) receiver)) else EGuard;
+  match find_xf (s_xf s) receiver sender with
+  | None => Err EGuard
+  | Some x =>
+      let now := s_now s in
+      check (c_minlock (s_cfg s) <? now - xf_at x) else EGuard;
+      do en1 <- add_dest_loop (entry_now s receiver) now (xf_funds x);
+      do bal1 <- debit_all (s_bal s) H_XFER (xf_funds x);
+      let bal2 := credit_all bal1 receiver (xf_funds x) in
+      let s1 := set_bal (put_entry s receiver en1) bal2 in
+      Ok (set_rlast (set_xf s1 (filter (fun y => negb (xf_match receiver sender y)) (s_xf s)))
+                    (aset (s_rlast s) receiver now), [])
+  end.
+
+Definition ep_cancel_transfer (s : st) (c sender receiver : Z) : result (st * outs) :=
+  check (c =? ADMIN) else EPerm;                    (* require_caller_has_admin_permissions *)
+  match find_xf (s_xf s) receiver sender with
+  | None => Err EGuard
+  | Some x =>
+      let now := s_now s in
+      do en1 <- add_dest_loop (entry_now s sender) now (xf_funds x);
+      do bal1 <- debit_all (s_bal s) H_XFER (xf_funds x);
+      let bal2 := credit_all bal1 sender (xf_funds x) in
+      let s1 := set_bal (put_entry s sender en1) bal2 in
+      Ok (set_slast (set_xf s1 (filter (fun y => negb (xf_match receiver sender y)) (s_xf s)))
+                    (aset (s_slast s) sender 0), [])
+  end.
+
+Definition ep_wrap (s : st) (c e amt : Z) : result (st * outs) :=
+  do bal0 <- debit (s_bal s) c e amt;
+  check (0 <? amt) else EGuard;
+  do en1 <- deduct_loop (entry_now s c) (s_now s) [(e, amt)];
+  let bal1 := credit bal0 H_WRAP e amt in
+  Ok (set_wbal (set_bal (put_entry s c en1) bal1) (credit (s_wbal s) c e amt), [e; amt]).
+
+Definition ep_unwrap (s : st) (c e amt : Z) : result (st * outs) :=
+  do w1 <- debit (s_wbal s) c e amt;
+  check (0 <? amt) else EGuard;
+  do en1 <- add_dest_loop (entry_now s c) (s_now s) [(e, amt)];
+  do bal0 <- debit (s_bal s) H_WRAP e amt;
+  let bal1 := credit bal0 c e amt in
+  Ok (set_wbal (set_bal (put_entry s c en1) bal1) w1, [e; amt]).
+
+Definition ep_wtransfer (s : st) (src dst e amt : Z) : result (st * outs) :=
+  check (0 <? amt) else EGuard;
+  do w1 <- debit (s_wbal s) src e amt;
+  Ok (set_wbal s (credit w1 dst e amt), []).
+
+Definition ep_advance (s : st) (d : Z) : result (st * outs) :=
+  check (0 <=? d) else EGuard;
+  Ok (set_now s (s_now s + d), []).
+
+(** ------------------------------------------------------------------ operations *)
+Inductive eop :=
+| Lock (c amt le dest : Z)                 (* lockTokens, base asset *)
+| LockVirtual (u amt le : Z)               (* lockVirtual by the whitelisted contract, dest = energy address = u *)
+| Extend (c e amt le dest : Z)             (* lockTokens, locked token *)
+| ExtendVia (u e amt le : Z)               (* extendLockPeriod by the whitelisted contract for u *)
+| Merge (c : Z) (ps : list (Z * Z))
+| MergeVia (u : Z) (ps : list (Z * Z))     (* mergeTokens(original_caller = u) by the whitelisted contract *)
+| Reduce (c e amt le : Z)
+| Unlock (c : Z) (ps : list (Z * Z))
+| UnlockEarly (c e amt : Z)
+| Claim (c : Z)
+| CancelUnbond (c : Z)
+| LockFunds (sender receiver : Z) (ps : list (Z * Z))
+| Withdraw (receiver sender : Z)
+| CancelTransfer (c sender receiver : Z)
+| Wrap (c e amt : Z)
+| Unwrap (c e amt : Z)
+| WTransfer (src dst e amt : Z)
+| Unauth (c k : Z)                         (* a user account calling an endpoint reserved to contracts:
+                                              setUserEnergyAfterLockedTokenTransfer, revertUnstake, lockVirtual,
+                                              extendLockPeriod, depositUserTokens, depositFees *)
+| Advance (d : Z).
+
+(** the accounts an operation names are user accounts: contract accounts act only through their code *)
+Definition accounts_ok (op : eop) : bool :=
+  match op with
+  | Lock c _ _ dest => is_user c && is_user dest
+  | LockVirtual u _ _ => is_user u
+  | Extend c _ _ _ dest => is_user c && is_user dest
+  | ExtendVia u _ _ _ => is_user u
+  | Merge c _ => is_user c
+  | MergeVia u _ => is_user u
+  | Reduce c _ _ _ => is_user c
+  | Unlock c _ => is_user c
+  | UnlockEarly c _ _ => is_user c
+  | Claim c => is_user c
+  | CancelUnbond c => is_user c
+  | LockFunds a b _ => is_user a && is_user b
+  | Withdraw a b => is_user a && is_user b
+  | CancelTransfer c a b => is_user c && is_user a && is_user b
+  | Wrap c _ _ => is_user c
+  | Unwrap c _ _ => is_user c
+  | WTransfer a b _ _ => is_user a && is_user b
+  | Unauth c _ => is_user c
+  | Advance _ => true
+  end.
+
+Definition step (s : st) (op : eop) : result (st * outs) :=
+  check accounts_ok op else EPerm;
+  match op with
+  | Lock c amt le dest => ep_lock s amt le dest
+  | LockVirtual u amt le => ep_lock s amt le u
+  | Extend c e amt le dest => ep_extend s c e amt le dest
+  | ExtendVia u e amt le => ep_extend s u e amt le u
+  | Merge c ps => ep_merge s c ps
+  | MergeVia u ps => ep_merge s u ps
+  | Reduce c e amt le => ep_reduce s c e amt le
+  | Unlock c ps => ep_unlock s c ps
+  | UnlockEarly c e amt => ep_unlock_early s c e amt
+  | Claim c => ep_claim s c
+  | CancelUnbond c => ep_cancel_unbond s c
+  | LockFunds a b ps => ep_lock_funds s a b ps
+  | Withdraw a b => ep_withdraw s a b
+  | CancelTransfer c a b => ep_cancel_transfer s c a b
+  | Wrap c e amt => ep_wrap s c e amt
+  | Unwrap c e amt => ep_unwrap s c e amt
+  | WTransfer a b e amt => ep_wtransfer s a b e amt
+  | Unauth _ _ => Err EPerm
+  | Advance d => ep_advance s d
+  end.
+
+(** A failed transaction reverts: the runner keeps the old state. *)
+Definition step_total (s : st) (op : eop) : st :=
+  match step s op with Ok (s', _) => s' | Err _ => s end.
+
+Definition run (s : st) (ops : list eop) : st := fold_left step_total ops s.
+
+(** ------------------------------------------------------------------ views *)
+(** getEnergyEntryForUser *)
+Definition view_entry (s : st) (u : Z) : energy := entry_now s u.
+(** getEnergyAmountForUser *)
+Definition view_amount (s : st) (u : Z) : Z := get_energy_amount (entry_now s u).
